@@ -219,6 +219,8 @@ def sing_case(cid, kind, w, wrapper, cap, pad, ext, placement="top", enum_order=
     fields.append(Field(t, "f", fnum))
     if tail:
         fields.append(Field(Uint(5), "tail", 3 if fnum < 3 else (255 if fnum == 254 else 2)))
+    if not tail:
+        b.feats.add("last_member")
     if fnum != 2:
         b.feats.add("fnum:%d" % fnum)
     b.feats.add("pad:%d" % pad)
